@@ -37,7 +37,7 @@ prop("C04", "other",
      "decode failure never re-enters the loop. Decides every structural clause; nothing numeric is involved "
      "(the 2^-31 id collision is outside any technique).",
      [("C04.accept", c04.accept), ("C04.check", c04.pdu_check), ("C04.skip", c04.skip_loop),
-      ("C04.single", c04.single_id), ("C04.report", c04.report_only_v3)])
+      ("C04.single", c04.single_id), ("C04.report", c04.report_only_v3), ("C04.version", c04.version_check)])
 
 # properties not claimed (with the reason); kept current by hand
 NOT_APPLICABLE = {}
